@@ -213,8 +213,8 @@ def run(ctx):
     rs.append(dict(src='params', est=name, kinds=kinds, seed=int(rng.integers(1 << 30))))
     rs.append(dict(src='alias', est=name, seed=int(rng.integers(1 << 30))))
   # life-cycle histories centred on clone / pickle / set_params / unfitted use
-  hs = {'thr': c17.histories(ctx, True, 8, 30 if ctx.quick else 200, 12, 'thr'),
-        'tuples': c17.histories(ctx, False, 8, 30 if ctx.quick else 200, 12, 'tuples'),
+  hs = {'thr': c17.histories(ctx, True, 8, 30 if ctx.quick else 200, 12, 'thr', fit_transform=False),
+        'tuples': c17.histories(ctx, False, 8, 30 if ctx.quick else 200, 12, 'tuples', fit_transform=False),
         'plain': c17.histories(ctx, False, 5, 30 if ctx.quick else 200, 12, 'plain')}
   life = []
   for name in gen.ALL:
